@@ -60,7 +60,7 @@ def seq_histories(draw, tier):
             # "small": the getter returns plain numbers that are EQUAL to True / False / each other (1, 1.0, 0, -0.0):
             # awaiters must get the very object the getter returned
             "small_value": draw(st.sampled_from([False, False, True])),
-            "subclass": draw(st.booleans())}
+            "subclass": draw(st.booleans()), "frozen": draw(st.sampled_from([False, False, True]))}
 
 
 def _small(n):
@@ -102,6 +102,13 @@ def make_class(ctx, runs, case, fail_flags):
         class Holder:
             prop = a.cached_property(getter)
     Holder.prop.__set_name__(Holder, "prop")
+    if case.get("frozen"):
+        # instances that refuse attribute assignment (like a frozen dataclass): a cached property keeps its value
+        # in the instance __dict__ and never goes through __setattr__
+        def refuse(self, name, value):
+            raise AttributeError(f"cannot assign to field {name!r}")
+
+        Holder.__setattr__ = refuse
     if case.get("subclass"):
         # the instances belong to a subclass of the class that defines the property
         class Derived(Holder):
@@ -117,7 +124,7 @@ def check_seq(case):
     Holder = make_class(ctx, runs, case, fail_flags)
     objs = [Holder(), Holder()]
     for i, o in enumerate(objs):
-        o.tag = i
+        object.__setattr__(o, "tag", i)
     model = [None, None]            # cached value per instance
     in_dict = [False, False]        # is there anything (value or placeholder) in the instance dict
     taken = []
@@ -170,7 +177,7 @@ def check_seq(case):
                 # `await Holder().prop`: the instance is kept alive by the pending access only
                 before = len(runs)
                 fresh = Holder()
-                fresh.tag = f"temp{step}"
+                object.__setattr__(fresh, "tag", f"temp{step}")
                 pending = fresh.prop
                 del fresh
                 try:
